@@ -473,11 +473,96 @@ def event_cases():
     return st.tuples(st.lists(docs, min_size=0, max_size=5), ge.emit_options())
 
 
+# ------------------------------------------------------------------------------------------------
+# node graphs obtained by composing coverage-guided texts (vlib/greybox.py): compose_all -> serialize_all -> compose_all
+
+COMPOSED_OPTS = [{}, {"explicit_start": True}, {"explicit_end": True}, {"canonical": True}, {"version": (1, 1)}, {"width": 10, "indent": 4},
+                 {"allow_unicode": True}, {"line_break": "\r\n"}, {"explicit_start": True, "explicit_end": True, "version": (1, 2)}, {"encoding": "utf-16-le"}]
+
+
+def _composed(text):
+    import yaml
+    try:
+        return list(yaml.compose_all(text, Loader=yaml.Loader))
+    except (yaml.YAMLError, RecursionError):
+        return None
+
+
+def _walk_nodes(docs):
+    seen, out = set(), []
+    stack = list(docs)
+    while stack:
+        n = stack.pop()
+        if n is None or id(n) in seen:
+            continue
+        seen.add(id(n))
+        out.append(n)
+        if n.id == "sequence":
+            stack.extend(n.value)
+        elif n.id == "mapping":
+            for k, v in n.value:
+                stack.extend((k, v))
+    return out
+
+
+def eval_composed(case):
+    import yaml
+    text, oi = case
+    opts = COMPOSED_OPTS[oi % len(COMPOSED_OPTS)]
+    docs = _composed(text)
+    if not docs or any(d is None for d in docs):
+        return Eval([], ["composed", "composed:text-rejected-or-empty"], nontrivial=False, ident=repr(case), evals=1)
+    n = len(docs)
+    cl = {"composed", "composed:n=%d" % min(n, 3)}
+    if opts.get("version") or opts.get("tags"):
+        cl.add("composed:directives")
+    failures = []
+    evals = 1
+    for dname, D in dumpers(safe=False):
+        fresh = _composed(text)
+        try:
+            out = yaml.serialize_all(fresh, Dumper=D, **opts)
+        except RecursionError:
+            raise
+        except Exception as e:
+            failures.append(Failure("serialize_all-raised:%s:%s" % (dname, exc_key(e)), exc_msg(e)))
+            continue
+        evals += 1
+        for lname, L in loaders(safe=False):
+            evals += 1
+            try:
+                back = list(yaml.compose_all(deliver(out), Loader=L))
+            except RecursionError:
+                raise
+            except Exception as e:
+                failures.append(Failure("compose_all-rejects:%s>%s:%s" % (dname, lname, exc_key(e)), "%s\ntext=%r" % (exc_msg(e), out[:500])))
+                continue
+            if len(back) != n:
+                failures.append(Failure("node-document-count:%s>%s" % (dname, lname), "%d documents written, %d read\ntext=%r" % (n, len(back), out[:500])))
+                continue
+            for i, (a, b) in enumerate(zip(docs, back)):
+                diff = nodes_equal(a, b)
+                if diff is not None:
+                    failures.append(Failure("node-differs:%s>%s:%s" % (dname, lname, diff.split(": ")[1].split(" ")[0]),
+                                            "document %d: %s\ntext=%r" % (i, diff, out[:500])))
+                    break
+    return Eval(failures, sorted(cl), nontrivial=n >= 2 or len(_walk_nodes(docs)) > 2, ident=repr(case), evals=evals,
+                sample={"text": text[:300], "options": repr(opts)})
+
+
+def composed_campaign(shard, nshards, tier):
+    from vlib import greybox
+    from vlib.runner import h64
+    return greybox.campaign(shard, nshards, tier, PROPERTY, "composed", quick=8000, thorough=500000,
+                            wrap=lambda t: (t, h64(t) % len(COMPOSED_OPTS)), valid_only=True)
+
+
 def arms(tier):
     return [
         Arm("values", eval_values, value_cases, quick=6000, thorough=250000),
         Arm("nodes", eval_nodes, node_cases, quick=6000, thorough=250000),
         Arm("events", eval_events, event_cases, quick=6000, thorough=250000),
+        Arm("composed", eval_composed, enum=composed_campaign),
     ]
 
 
@@ -541,6 +626,23 @@ def known_class(arm, case, key):
     parts = key.split(":")
     c_emitter = len(parts) > 1 and (parts[1].startswith(("c>", "c-path>")) or parts[1] in ("c", "c-path", "nodes-c", "events-c"))
     if not c_emitter:
+        return None
+    if arm == "composed":
+        text, oi = case
+        opts = COMPOSED_OPTS[oi % len(COMPOSED_OPTS)]
+        docs = _composed(text) or []
+        T = "tag:yaml.org,2002:"
+        r = docs[0] if docs else None
+        if (r is not None and r.id == "scalar" and r.value == "" and not r.style and r.tag in (T + "null", T + "str")
+                and not (opts.get("explicit_start") or opts.get("version") or opts.get("tags") or opts.get("canonical"))
+                and ("count" in parts[0] or "rejects" in parts[0] or parts[0] == "node-differs")):
+            return "libyaml-drops-empty-implicit-first-document"
+        allnodes = _walk_nodes(docs)
+        if any(n.id == "scalar" and n.style == ">" and has_foldable_more_indented_line(n.value) for n in allnodes):
+            return "libyaml-folds-inside-more-indented-line"
+        if parts[1].endswith(">c") and any(n.tag and ((n.tag.startswith("!") and any(c in n.tag[1:] for c in ",[]")) or
+                                                      (n.tag.startswith(T) and any(c in n.tag[len(T):] for c in ",[]"))) for n in allnodes):
+            return "libyaml-emitter-writes-flow-indicator-in-shorthand-tag"
         return None
     if _first_root_is_empty_implicit_plain(arm, case) and (
             "count" in parts[0] or "rejects" in parts[0] or key.endswith(":structure") or parts[0].startswith("text-depends")):
